@@ -149,7 +149,7 @@ def run_point(args):
         run2 = w.run(reset=reset, revise=revise)
         rec["rerun_rc"] = run2["rc"]
         rec["rerun_log"] = run2["log"][-600:]
-        rec["rerun_run"] = {"rc": run2["rc"], "log": run2["log"], "ops": [e for e in run2["ops"] if e["kind"] == "replace"]}
+        rec["rerun_run"] = {"rc": run2["rc"], "log": run2["log"], "errw": run2["errw"], "ops": [e for e in run2["ops"] if e["kind"] == "replace"]}
         rec["rerun_post"] = w.abstract()
         rec["rerun_results"] = w.results() if run2["rc"] == 0 else {}
         return rec
@@ -168,7 +168,7 @@ def reference(scen_world, flags):
     w = clone(scen_world)
     try:
         run = w.run(reset=flags[0], revise=flags[1])
-        return {"rc": run["rc"], "log": run["log"][-600:], "ops": run["ops"], "results": w.results() if run["rc"] == 0 else {},
+        return {"rc": run["rc"], "log": run["log"][-600:], "errw": run["errw"], "ops": run["ops"], "results": w.results() if run["rc"] == 0 else {},
                 "raw": raw_contents(w), "post": w.abstract()}
     finally:
         w.close()
